@@ -94,3 +94,7 @@ Theorem C14_cut_off_reply_safe : forall T K c op payload conn evs r,
   send T K c op payload (b_data conn) = (evs, r).
 Proof. exact client_io_error_safe. Qed.
 Print Assumptions C14_cut_off_reply_safe.
+
+Example C14_transport_example :
+  transport_ok {| b_data := [Byte.x42; Byte.x00; Byte.x7b]; b_sizes := [2; 0; 0; 1]%N; b_weof := false; b_term := EOF |}.
+Proof. cbn. repeat split; auto with arith. Qed.
